@@ -1,7 +1,10 @@
 #!/bin/sh
-# Offline setup after a fresh restore: build the Lean project (model, proofs, driver).
+# Offline setup after a fresh restore: regenerate the translator-produced Lean files from /repo,
+# then build the Lean project (model, proofs, driver).
 # C drivers are (re)built by every check from /repo's current working tree.
 set -e
-cd "$(dirname "$0")/lean"
+cd "$(dirname "$0")"
+python3 tools/regen.py
+cd lean
 lake build 2>&1 | tail -5
 test -x .lake/build/bin/a1model
